@@ -48,6 +48,14 @@ Descs == <<
   [kind |-> "lit", rs |-> <<R(128512,128512)>>, neg |-> FALSE, fold |-> FALSE],
   [kind |-> "lit", rs |-> <<R(65533,65533)>>, neg |-> FALSE, fold |-> FALSE],
   [kind |-> "lit", rs |-> <<R(383,383)>>, neg |-> FALSE, fold |-> TRUE],
+  \* ranges whose ends are NOT aligned to a continuation-byte boundary (lo does not end in 80.., hi not in BF..) and that span
+  \* several lead bytes: the range-splitting code treats the first, the middle and the last lead byte differently
+  Cls(<<R(8208,65533)>>), NCls(<<R(0,8231)>>), Cls(<<R(2053,65528)>>), Cls(<<R(133,2032)>>), Cls(<<R(65541,1044000)>>),
+  Cls(<<R(12353,40959)>>), Cls(<<R(70000,200000)>>), NCls(<<R(300,70000)>>),
+  \* fold orbits whose smallest member is not a letter (U+0345 < iota), and non-letter orbits (circled A, Roman numeral eight)
+  [kind |-> "lit", rs |-> <<R(953,953)>>, neg |-> FALSE, fold |-> TRUE],
+  [kind |-> "lit", rs |-> <<R(9424,9424)>>, neg |-> FALSE, fold |-> TRUE],
+  FCls(<<R(8567,8567)>>), FCls(<<R(921,921)>>),
   [kind |-> "dot",  rs |-> <<>>, neg |-> FALSE, fold |-> FALSE],
   [kind |-> "dots", rs |-> <<>>, neg |-> FALSE, fold |-> FALSE] >>
 
@@ -55,6 +63,9 @@ Descs == <<
 Orbit(r) == IF r \in {107, 75, 8490} THEN {107, 75, 8490}
             ELSE IF r \in {115, 83, 383} THEN {115, 83, 383}
             ELSE IF r \in {233, 201} THEN {233, 201}
+            ELSE IF r \in {837, 921, 953, 8126} THEN {837, 921, 953, 8126}
+            ELSE IF r \in {9398, 9424} THEN {9398, 9424}
+            ELSE IF r \in {8551, 8567} THEN {8551, 8567}
             ELSE IF r >= 97 /\ r <= 122 THEN {r, r - 32}
             ELSE IF r >= 65 /\ r <= 90 THEN {r, r + 32}
             ELSE {r}
@@ -66,15 +77,24 @@ Member(d, r) ==
                 IN IF d.neg THEN ~in ELSE in
 
 Globals == {0, 10, 65, 97, 127, 128, 191, 192, 2047, 2048, 4095, 4096, 55295, 57344, 65533, 65535, 65536,
-            262143, 262144, 1048575, 1048576, 1114111, 75, 107, 8490, 83, 115, 383, 201, 233}
+            262143, 262144, 1048575, 1048576, 1114111, 75, 107, 8490, 83, 115, 383, 201, 233,
+            837, 921, 953, 8126, 9398, 9424, 8551, 8567}
 \* around every range endpoint: the neighbours at distance 1 and at the distances that change exactly one
 \* continuation byte (64, 4096, 262144) or sit just across such a step
 Deltas == {0, 1, 2, 8, 63, 64, 65, 4095, 4096, 4097, 262143, 262144}
 Near(e) == {e + x : x \in Deltas} \cup {e - x : x \in Deltas}
-Boundary(d) == {r \in Globals \cup UNION {Near(d.rs[i][1]) \cup Near(d.rs[i][2]) : i \in DOMAIN d.rs} : ValidRune(r)}
+\* byte neighbours: the code points whose UTF-8 differs from e's in one or more positions by "same / one less / one more /
+\* lowest / highest continuation value" - every way a byte automaton can get one byte of a range end wrong
+CV(c) == {x \in {0, c - 1, c, c + 1, 63} : x >= 0 /\ x <= 63}
+NearBytes(e) == {((e \div 4096) + a) * 4096 + x * 64 + y : a \in {-64, -1, 0, 1, 64}, x \in CV((e \div 64) % 64), y \in CV(e % 64)}
+Boundary(d) == {r \in Globals \cup UNION {Near(d.rs[i][1]) \cup Near(d.rs[i][2]) \cup NearBytes(d.rs[i][1]) \cup NearBytes(d.rs[i][2]) : i \in DOMAIN d.rs} : ValidRune(r)}
 
 IllBytes == <<0, 65, 127, 128, 191, 192, 194, 223, 224, 237, 239, 240, 244, 245, 255>>
-IllStrings == SetToSeq(UNION {[1..n -> {IllBytes[i] : i \in DOMAIN IllBytes}] : n \in 1..MaxIll})
+\* always tried, whatever MaxIll: encoded surrogates, overlong forms, beyond U+10FFFF, truncated sequences
+IllSpecial == { <<237,160,128>>, <<237,191,191>>, <<237,159,191>>, <<238,128,128>>, <<224,128,128>>, <<224,159,191>>, <<224,160,128>>,
+                <<240,128,128,128>>, <<240,143,191,191>>, <<240,144,128,128>>, <<244,143,191,191>>, <<244,144,128,128>>,
+                <<192,128>>, <<193,191>>, <<194,128>>, <<226,130>>, <<240,159,152>>, <<226,130,172,128>>, <<128,128>>, <<237,160>> }
+IllStrings == SetToSeq(IllSpecial \cup UNION {[1..n -> {IllBytes[i] : i \in DOMAIN IllBytes}] : n \in 1..MaxIll})
 
 \* what regexp decides for ^(?:d)$ on byte string s
 Expected(d, s) == SingleStep(s) /\ Member(d, DecodeAt(s, 1)[1])
